@@ -79,7 +79,13 @@ impl Context {
 			}
 			heap.push((conf, k));
 		});
-		heap.sort_by(|a, b| b.0.partial_cmp(&a.0).unwrap_or(Ordering::Equal));
+		// Keys come out of hash maps in address-dependent order: break score ties by name,
+		// so that the suggestion list is a function of the set of visible names only.
+		heap.sort_by(|a, b| {
+			b.0.partial_cmp(&a.0)
+				.unwrap_or(Ordering::Equal)
+				.then_with(|| a.1.cmp(&b.1))
+		});
 
 		bail!(VariableIsNotDefined(
 			name,
